@@ -231,6 +231,22 @@ pub fn check_c09(run: &MrpRun, out: &mut Outcome) {
 
         if *result == OK {
             out.count("send_ok", 1);
+            // What did the peer's transport say about the first copy it took in?
+            let first_verdict = cons
+                .iter()
+                .find(|c| c.node == peer && !c.modified && msg_dgrams.contains(&c.dgram))
+                .and_then(|c| verdict_of(run, c.tap_idx));
+            // (A message for an exchange that is gone is acknowledged and dropped by design: MRP
+            // acknowledges unsolicited messages; only refusals of the session itself count here)
+            if matches!(first_verdict, Some(RxVerdict::NoSession | RxVerdict::Error)) {
+                out.violate(
+                    "O2-success-although-peer-refused",
+                    format!(
+                        "node {} wl {} seq {} ctr {:#x}: send returned Ok although the peer's transport refused the message ({:?})",
+                        ev.node, ev.wl, seq, ctr, first_verdict
+                    ),
+                );
+            }
             if !delivered_before(end.time) {
                 out.violate(
                     "O2-success-without-delivery",
